@@ -117,6 +117,16 @@ def _gen_params(rng, small, tier="quick"):
         stock = xmax * rng.choice([10, 100, 100])
         min_transfer = rng.choice([1, 2, 3, 5, 10])
         vmax = [rng.randint(100, 1000 if small else 2000) for _ in range(C)]
+    if rng.random() < 0.05 and C >= 2:
+        # replicate columns (xmin == xmax) from a stock of a round multiple, the later columns smaller than the first:
+        # their stock transfer drops below min_transfer, so they are prepared from an earlier column - with
+        # quotients that sit exactly on the limits
+        xmin = xmax = float(rng.choice([30, 10, 100, 3, 1000, 7, 0.3, 2.5]))
+        stock = xmax * rng.choice([2, 2, 4, 10])
+        first = rng.choice([1000, 500, 400])
+        vmax = [first] + [rng.choice([30, 40, 50, 100, first]) for _ in range(C - 1)]
+        min_transfer = rng.choice([20, 20, 25, 10])
+        mode = rng.choice(["log", "log", "linear"])
     return {"xmin": xmin, "xmax": xmax, "R": R, "C": C, "stock": stock, "mode": mode, "vmax": vmax, "min_transfer": min_transfer}
 
 
@@ -134,6 +144,8 @@ def _gen_exec(rng, p):
     mv = rng.choice([950, 950, 200, 100, 333.3, 99.99, 250.5, 1000, 500, 64, 50, 75.25])
     if top / mv > 12:
         mv = rng.choice([950, 333.3, 200, 500])
+    if top <= 400 and R * C <= 12 and rng.random() < 0.25:
+        mv = rng.choice([7.7, 3.3, 12.7, 0.7 if top <= 100 else 7.7])  # a small tip with a step limit that is no binary fraction
     ex = {
         "device": rng.choice(["evo", "fluent"]),
         "max_volume": mv,
@@ -161,6 +173,8 @@ def gen_case(rng, tier, index):
     case = {"kind": "plan", "params": p, "exec": None}
     if with_exec:
         case["exec"] = _gen_exec(rng, p)
+        if isinstance(p.get("vmax"), list) and len(p["vmax"]) == p["C"] and rng.random() < 0.25:
+            case["vmax_form"] = rng.choice(["float_array", "int16", "uint16", "int32", "uint8", "uint8"])
         return case
     r = rng.random()
     if r < 0.03:
@@ -174,6 +188,16 @@ def gen_case(rng, tier, index):
     elif r < 0.09:
         case["kind"] = "refuse_mode"
         p["mode"] = rng.choice(["Log", "LOG", "lin", "Linear", "", "exp", "log ", "geometric", None, 0])
+    elif r < 0.11:
+        # the two ends given the wrong way round: whatever comes back must still be a consistent plan
+        p["xmin"], p["xmax"] = p["xmax"], p["xmin"]
+        case["swapped_ends"] = True
+        if p["xmin"] > p["xmax"] and rng.random() < 0.6:
+            p["stock"] = (p["xmin"] * p["xmax"]) ** 0.5  # a stock between the two ends
+    if isinstance(p.get("vmax"), list) and len(p["vmax"]) == p["C"] and case["kind"] == "plan" and rng.random() < 0.2:
+        # the per-column volumes as the caller's own array (narrow integers where they fit), which the caller
+        # keeps using for other things afterwards
+        case["vmax_form"] = rng.choice(["float_array", "int16", "uint16", "int32"])
     return case
 
 
@@ -630,6 +654,18 @@ def run_case(ctx, case):
     vm = p["vmax"]
     args = dict(xmin=p["xmin"], xmax=p["xmax"], R=p["R"], C=p["C"], stock=p["stock"], mode=p["mode"],
                 vmax=list(vm) if isinstance(vm, list) else vm, min_transfer=p["min_transfer"])
+    own = None
+    if case.get("vmax_form") and isinstance(vm, list):
+        form = case["vmax_form"]
+        if form == "float_array":
+            own = np.array(vm, dtype=float)
+        elif all(float(x).is_integer() and 0 < x < {"int16": 32000, "uint16": 65000, "uint8": 256}.get(form, 2**31 - 1) for x in vm):
+            own = np.array([int(x) for x in vm], dtype=getattr(np, form))
+        if own is not None:
+            args["vmax"] = own
+            ctx.count("vmax_given_as_" + form)
+    if case.get("swapped_ends"):
+        ctx.count("ends_given_the_wrong_way_round")
     plan, exc = None, None
     try:
         plan = robotools.DilutionPlan(**args)
@@ -637,6 +673,8 @@ def run_case(ctx, case):
         raise
     except Exception as e:
         exc = e
+    if own is not None:
+        own[...] = 1  # the caller's array is the caller's: it is re-used for something else now
     det = lambda: {"params": p, "raised": repr(exc), "instructions": _instr_json(plan) if plan is not None else None}
     if kind != "plan":
         ctx.count("must_refuse:" + kind)
